@@ -862,3 +862,15 @@ VARIANTS['C06'] += [
     V('neutral: own duration through a local',
       [(REPF, "            # a static manifest lists each stored segment exactly once\n            end = self.mediaDuration\n", "            own_duration = self.mediaDuration\n            end = own_duration\n")], None),
 ]
+
+VALF = 'dashlive/mpeg/dash/validator'
+VARIANTS['C18'] += [
+    V('InbandEventStream passes a depth its parent does not take (fix 63aa184 reverted)',
+      [(f'{VALF}/events.py', "        await super().validate()\n        self.elt.check_equal(\n            len(self._children), 0,",
+        "        await super().validate(depth)\n        self.elt.check_equal(\n            len(self._children), 0,")], 'R18.6', 'InbandEventStream.validate'),
+    V('missing moov logged through an attribute that does not exist (fix d493f68 reverted)',
+      [(f'{VALF}/init_segment.py', "            self.log.error(msg)\n            return None\n        self.validate_moov(moov)", "            self.logging.error(msg)\n            return None\n        self.validate_moov(moov)")],
+      'R18.7', 'InitSegment.validate'),
+    V('neutral: missing moov logged at warning level',
+      [(f'{VALF}/init_segment.py', "            self.log.error(msg)\n            return None\n        self.validate_moov(moov)", "            self.log.warning(msg)\n            return None\n        self.validate_moov(moov)")], None),
+]
